@@ -22,6 +22,50 @@ EXPLANATION = ('WHO-CALLS: HPKE seal is reachable only through HpkeEncryptable::
 ASSUMPTIONS = ['HPKE is IND-CCA secure; resolution / copath arithmetic is value-level (C20, not claimed)']
 
 
+def receiver_exclusion(P):
+    """Sender side: the resolution is filtered by membership in a set of NODE indices of the added leaves, so parent entries
+    are never skipped. Receiver side (find_ciphertext_pos): an entry may be converted to a leaf index and looked up in the
+    added-leaf list only when it IS a leaf (even node index); parent entries must always be counted. Otherwise the two sides
+    disagree on the position of a ciphertext whenever a parent with index 2k+1 sits next to an added leaf k."""
+    from ..core.guards import GuardExtractor
+    fn = P.fn('TreeKem::find_ciphertext_pos')
+    r = Res()
+    found = False
+    for k in P.closures_of(fn['key']):
+        f = P.fns[k]
+        body = P.body(f)
+        o = Origins(body)
+        gx = GuardExtractor(body)
+        for bi, t in body.calls():
+            if not re.search(r'::contains$', callee_name(t)) or o.arg_str(t, 0) != 'excluding':
+                continue
+            found = True
+            r.site('%s @%s contains(excluding, %s)' % (f['qual'], body.ln(bi), o.arg_str(t, 1)[:60]))
+            ok = False
+            for sb, blk in enumerate(body.B):
+                tt = blk['term']
+                if tt['k'] != 'switch' or tt['d']['k'] not in ('copy', 'move') or tt['d']['pl']['p']:
+                    continue
+                if body.fn['locals'][tt['d']['pl']['l']]['ty'] != 'bool' or len(tt['ts']) != 1:
+                    continue
+                rel = gx.cond_of_local(tt['d']['pl']['l'])
+                if rel[0] not in ('==', '!=') or not re.search(r'^\(idx Rem const 2\)$', rel[1]) or rel[2] not in ('const 1', 'const 0'):
+                    continue
+                v, tgt = tt['ts'][0]
+                false_t, true_t = (tgt, tt['o']) if v == '0' else (tt['o'], tgt)
+                odd_when_true = (rel[0] == '==') == (rel[2] == 'const 1')
+                even_side = false_t if odd_when_true else true_t
+                if body.dominates(even_side, bi) or even_side == bi:
+                    ok = True
+            if not ok:
+                r.bad('parent-entries-skipped', 'in `%s` a resolution entry is looked up in the added-leaf list without first being known to be a leaf '
+                      '(even node index): a parent node 2k+1 is treated as added leaf k and skipped, so sender and receiver count ciphertexts differently'
+                      % f['qual'], where=[body.ln(bi)])
+    if not found:
+        r.bad('exclusion-missing', 'find_ciphertext_pos no longer filters the resolution by the added-leaf list')
+    return r
+
+
 def run(ctx):
     P = ctx.P
     cfg = ctx.config
@@ -92,6 +136,8 @@ def run(ctx):
               lambda P_: wire(P_, 'Group as MessageProcessor::apply_update_path', r'TreeKem::new$', 0, r'^provisional_state\.public_tree$'), floor=1)
     ctx.check('WIRE', 'receiver indexes the ciphertext list with the same exclusion rule',
               lambda P_: wire(P_, 'TreeKem::decap', r'TreeKem::find_ciphertext_pos$', 3, r'^added_leaves$'), floor=1)
+    ctx.check('SIBLING', 'receiver skips only LEAF entries of the resolution that were added by the commit (as the sender does)',
+              receiver_exclusion, floor=1)
     G = 'Group::encrypt_group_secrets'
     ctx.check('WIRE', 'joiner secrets are encrypted to the init key of the added key package',
               lambda P_: wire(P_, G, r'HpkeEncryptable::encrypt$', 2, r'^key_package\.hpke_init_key$'), floor=1)
